@@ -1,3 +1,203 @@
--- stub: replaced by the property author
+import SupervisorModel.Lemmas.SupLemmas
+/-
+  C05 — shutdown and restart stop everything, in priority order, and only then exit.
+  Theorems over the per-process model and the daemon model (Model/Sup.lean); the daemon model is
+  checked pass by pass against the unmodified `runforever()` over a simulated kernel.
+-/
+set_option linter.unusedSimpArgs false
+set_option linter.unusedVariables false
 namespace Sv.Props.C05
+open Sv Sv.Proc Sv.Gen.Proc Sv.Sup Sv.Gen.Sup
+
+theorem mood_ite (c : Prop) [Decidable c] (a b : Sup) : (if c then a else b).mood = if c then a.mood else b.mood := by
+  split <;> rfl
+theorem exited_ite (c : Prop) [Decidable c] (a b : Sup) : (if c then a else b).exited = if c then a.exited else b.exited := by
+  split <;> rfl
+
+/-- the generated mood codes are ordered SHUTDOWN < RESTARTING < RUNNING -/
+theorem mood_codes : moodSHUTDOWN < moodRESTARTING ∧ moodRESTARTING < moodRUNNING := by decide
+
+/-- **A SIGHUP (or any signal) received during shutdown never turns it into a restart** -/
+theorem sighup_ignored_in_shutdown (sig : Int) : newMood moodSHUTDOWN sig = moodSHUTDOWN := by
+  simp only [newMood, handle_signal_g0, handle_signal_g1, handle_signal_g2, handle_signal_g3, handle_signal_a1, handle_signal_a2]
+  (repeat' split) <;> simp_all
+
+/-- **The daemon's mood only moves towards SHUTDOWN**: signal handling never raises it -/
+theorem mood_never_rises (mood sig : Int) (h : mood ≤ moodRUNNING) (hlo : moodSHUTDOWN ≤ mood) :
+    newMood mood sig ≤ mood ∧ moodSHUTDOWN ≤ newMood mood sig := by
+  simp only [newMood, handle_signal_g0, handle_signal_g1, handle_signal_g2, handle_signal_g3, handle_signal_a1, handle_signal_a2]
+  (repeat' split) <;> (simp only [moodSHUTDOWN, moodRESTARTING, moodRUNNING, beq_iff_eq] at *) <;> omega
+
+/-- `handle_signal()` changes nothing but the mood, and that only through `newMood` -/
+theorem handleSignal_mood (s : Sup) (sig : Int) (hs : s.env.sig = some sig) (he : s.err = none) (hx : s.exited = false) :
+    handleSignal s = { s with mood := newMood s.mood sig } := by
+  simp [handleSignal, sguard, hs, he, hx]
+
+/-- the shutdown / restart RPCs are themselves refused once a request has been observed -/
+theorem shutdown_rpcs_gated (s : Sup) (id : Nat) (h : s.mood < moodRUNNING) (he : s.err = none) (hx : s.exited = false) :
+    (rpcOne (.restart id) s).mood = s.mood ∧ (rpcOne (.shutdown id) s).mood = s.mood := by
+  simp [rpcOne, sguard, semit, he, hx, h]
+
+/-- **No fork after the request**: with the daemon not RUNNING, a pass forks no child — for any
+    process state (EXITED awaiting autorestart, BACKOFF awaiting retry, STOPPED awaiting autostart, …),
+    configuration, clock reading and environment answer -/
+theorem no_fork_when_not_running (cfg : Cfg) (p : Proc) (now mood : Int) (res : SpawnRes) (kr : KillRes)
+    (h : ¬ moodRESTARTING < mood) : forks (transition cfg now mood res kr { p := p }).outs = [] := by
+  simp only [transition, guard, setP, Option.isSome_none, Bool.false_eq_true, if_false]
+  rw [escalate_noFork, toRunning_noFork]
+  simp [autoStart, guard, transition_g0, h, forks]
+
+/-- **Process-control RPCs are refused with SHUTDOWN_STATE and change nothing** -/
+theorem rpcs_refused (cfg : Cfg) (p : Proc) (now mood sig : Int) (res : SpawnRes) (kr : KillRes) (h : mood < moodRUNNING) :
+    rpcStart cfg now mood res { p := p } = { p := p, outs := [.answer faultSHUTDOWN_STATE] } ∧
+    rpcStop cfg now mood kr { p := p } = { p := p, outs := [.answer faultSHUTDOWN_STATE] } ∧
+    rpcSignal cfg now mood sig kr { p := p } = { p := p, outs := [.answer faultSHUTDOWN_STATE] } := by
+  simp [rpcStart, rpcStop, rpcSignal, guard, answer, emit, h]
+
+/-- **What is stopped stays stopped** while the daemon is not RUNNING: a pass leaves a process in a
+    stopped state (STOPPED, EXITED, FATAL, UNKNOWN) exactly there, so a group that has been found
+    stopped cannot come back to life before the exit -/
+theorem stopped_stays_stopped (cfg : Cfg) (p : Proc) (now mood : Int) (res : SpawnRes) (kr : KillRes)
+    (h : ¬ moodRESTARTING < mood) (hs : p.state ∈ stoppedStates) :
+    (transition cfg now mood res kr { p := p }).p.state = p.state := by
+  have hr := (rollback_fields cfg now p).1
+  simp [stoppedStates] at hs
+  have hne : p.state ≠ .starting ∧ p.state ≠ .backoff ∧ p.state ≠ .stopping := by
+    rcases hs with hs | hs | hs | hs <;> simp [hs]
+  simp only [transition, guard, setP, Option.isSome_none, Bool.false_eq_true, if_false, transition_a1]
+  rw [escalate_id _ _ _ _ (by simp [hne.2.1]) (by simp [hne.2.2]), toRunning_id _ _ _ (by simp [hne.1])]
+  simp [autoStart, guard, transition_g0, h, hr]
+
+/-- **The main loop exits only when no process is unstopped**: the exit flag is raised by the exit
+    test of the loop (`if not self.shutdown_report(): raise ExitNow`) and only there, when no process
+    of any group is outside the stopped states -/
+theorem exit_only_when_all_stopped (s : Sup) (hx : s.exited = false) (h : (exitTest s).exited = true) :
+    anyUnstopped (exitTest s) = false := by
+  simp only [exitTest, sguard] at h ⊢
+  by_cases hg : (s.err.isSome || s.exited) = true
+  · simp only [hg, if_true] at h ⊢
+    simp [hx] at h
+  · simp only [hg, if_false] at h ⊢
+    by_cases hu : (!anyUnstopped s) = true
+    · simp only [hu, if_true]
+      simpa [anyUnstopped] using hu
+    · simp [hu, hx] at h
+
+/-- the exit test runs only while a shutdown/restart request is pending -/
+theorem exit_test_only_when_requested (s : Sup) (h : ¬ s.mood < moodRUNNING) : shutdownPhase1 s = s := by
+  simp [shutdownPhase1, sguard, runforever_g1, h]
+
+/-- **SUPERVISOR_STATE_CHANGE_STOPPING is announced exactly when the request is first observed**:
+    with the `stopping` flag clear, the notification is emitted once, the flag is set and the stop
+    queue is fixed to the groups in ascending priority order, before anything is signalled … -/
+theorem stopping_announced_first (s : Sup) (gid : Nat) (he : s.err = none) (hx : s.exited = false) (hm : s.mood < moodRUNNING)
+    (hs : s.stopping = false) (hg : ((sortedGroups s).map (·.1)).getLast? = some gid) :
+    shutdownPhase1 s = exitTest (stopAll gid
+      { s with stopping := true, stopGroups := (sortedGroups s).map (·.1), outs := s.outs ++ [.stopping] }) := by
+  simp only [List.getLast?_map] at hg
+  simp [shutdownPhase1, sguard, semit, he, hx, hm, hs, hg, runforever_g1, runforever_g2]
+
+/-- … and with the flag set nothing is announced again: phase 1 only stops the last group of the queue -/
+theorem stopping_not_announced_again (s : Sup) (gid : Nat) (he : s.err = none) (hx : s.exited = false) (hm : s.mood < moodRUNNING)
+    (hs : s.stopping = true) (hg : s.stopGroups.getLast? = some gid) :
+    shutdownPhase1 s = exitTest (stopAll gid s) := by
+  simp [shutdownPhase1, sguard, semit, he, hx, hm, hs, hg, runforever_g1, runforever_g2]
+
+/-- **A group leaves the stop queue only when every one of its processes is in a stopped state** -/
+theorem phase2_pops_only_stopped_group (s : Sup) (he : s.err = none) (hx : s.exited = false)
+    (h : (shutdownPhase2 s).stopGroups ≠ s.stopGroups) :
+    ∃ gid, s.stopGroups.getLast? = some gid ∧ unstopped (members s.procs gid) = [] ∧
+      (shutdownPhase2 s).stopGroups = s.stopGroups.dropLast := by
+  simp only [shutdownPhase2, sguard, he, hx, Option.isSome_none, Bool.false_eq_true, Bool.or_self, if_false] at h ⊢
+  by_cases hg10 : runforever_g10 s.mood 0 0 0 s.stopping false = true
+  · simp only [hg10, if_true] at h ⊢
+    cases hl : s.stopGroups.getLast? with
+    | none => simp [hl] at h
+    | some gid =>
+      simp only [hl] at h ⊢
+      by_cases hu : (unstopped (members s.procs gid)).isEmpty = true
+      · refine ⟨gid, rfl, by simpa using hu, ?_⟩
+        simp [hu]
+      · simp [hu] at h
+  · simp [hg10] at h
+
+theorem popKill_procs (s s1 : Sup) (k : Option KillRes) (h : popKill s = (k, s1)) : s1.procs = s.procs := by
+  unfold popKill at h
+  split at h <;> (simp only [Prod.mk.injEq] at h; obtain ⟨_, h2⟩ := h; subst h2; rfl)
+
+theorem procGroupStop_others (n m : Nat) (hne : m ≠ n) (acc : Sup) :
+    findPE (procGroupStop n acc).procs m = findPE acc.procs m := by
+  unfold procGroupStop sguard
+  split
+  · rfl
+  · dsimp only
+    split
+    · rfl
+    · split
+      · split
+        · rfl
+        · rename_i k s1 heq
+          rw [onProc_others _ _ _ m hne, popKill_procs _ _ _ heq]
+      · exact onProc_others _ _ _ m hne
+
+theorem mem_insertBy {α : Type} (key : α → Int) (x y : α) (l : List α) : y ∈ insertBy key x l ↔ y = x ∨ y ∈ l := by
+  induction l with
+  | nil => simp [insertBy]
+  | cons z zs ih =>
+    simp only [insertBy]
+    split
+    · simp
+    · simp only [List.mem_cons, ih]
+      constructor
+      · intro h; rcases h with h | h | h
+        · right; left; exact h
+        · left; exact h
+        · right; right; exact h
+      · intro h; rcases h with h | h | h
+        · right; left; exact h
+        · left; exact h
+        · right; right; exact h
+
+theorem mem_sortBy {α : Type} (key : α → Int) (y : α) (l : List α) : y ∈ sortBy key l ↔ y ∈ l := by
+  have hgen : ∀ (l acc : List α), y ∈ l.foldl (fun acc x => insertBy key x acc) acc ↔ y ∈ acc ∨ y ∈ l := by
+    intro l
+    induction l with
+    | nil => intro acc; simp
+    | cons x xs ih =>
+      intro acc
+      simp only [List.foldl_cons, ih, mem_insertBy, List.mem_cons]
+      constructor
+      · intro h; rcases h with (h | h) | h
+        · right; left; exact h
+        · left; exact h
+        · right; right; exact h
+      · intro h; rcases h with h | h | h
+        · left; right; exact h
+        · left; left; exact h
+        · right; exact h
+  simpa [sortBy] using hgen l []
+
+/-- and only the *last* group of the queue (the highest priority number) is signalled by phase 1:
+    `stop_all` of a group leaves every process outside that group untouched -/
+theorem phase1_touches_only_last_group (gid : Nat) (s : Sup) (m : Nat)
+    (hm : ∀ e ∈ members s.procs gid, e.name ≠ m) : findPE (stopAll gid s).procs m = findPE s.procs m := by
+  unfold stopAll sguard
+  split
+  · rfl
+  · have hgen : ∀ (l : List PE) (acc : Sup), (∀ e ∈ l, e.name ≠ m) →
+        findPE (l.foldl (fun acc e => procGroupStop e.name acc) acc).procs m = findPE acc.procs m := by
+      intro l
+      induction l with
+      | nil => intro acc _; rfl
+      | cons x xs ih =>
+        intro acc hx
+        simp only [List.foldl_cons]
+        rw [ih _ (fun e he => hx e (List.mem_cons_of_mem _ he))]
+        exact procGroupStop_others _ _ (fun h => hx x (List.mem_cons_self ..) h.symm) _
+    apply hgen
+    intro e he
+    apply hm
+    have h1 : e ∈ sortBy (·.prio) (members s.procs gid) := by simpa using he
+    exact (mem_sortBy _ _ _).mp h1
+
 end Sv.Props.C05
